@@ -113,6 +113,8 @@ def check(ctx):
     # ------------------------------------------------------------------ R4
     _r4(ctx, cf)
     r4_scratch_fully_written(ctx, cf)
+    r4_carried_state(ctx, cf)
+    r4_no_hidden_frequency_filter(ctx)
 
 
 def _decl_ids(node):
@@ -542,3 +544,94 @@ def r4_scratch_fully_written(ctx, cf):
         ok = _must_store(C.kids(g)[1], "hcoords")
         ctx.decide(ok, "C08-R4", C.line(g), rel, "ks_assign_hydrogens", "hcoords written on every path under %s" % re.sub(r"\s", "", C.text(C.kids(g)[0])), "",
                    "a path through the branch for a complete residue stores no hydrogen position: the scratch vector, allocated once for all frames, keeps the value of the previous frame")
+
+
+FRAME_LOOP_KERNELS = [("mdtraj/geometry/src/geometry.cpp", f) for f in (
+    "dist", "dist_t", "dist_mic", "dist_mic_t", "dist_mic_triclinic", "dist_mic_triclinic_t", "angle", "angle_mic", "angle_mic_triclinic",
+    "dihedral", "dihedral_mic", "dihedral_mic_triclinic", "kabsch_sander")] + [("mdtraj/geometry/src/sasa.cpp", "sasa"), ("mdtraj/geometry/src/dssp.cpp", "dssp")]
+
+
+def _lhs_of(n):
+    k = n["kind"]
+    if k == "BinaryOperator" and n.get("opcode") == "=":
+        return C.kids(n)[0], "="
+    if k == "CompoundAssignOperator":
+        return C.kids(n)[0], n.get("opcode")
+    if k == "UnaryOperator" and n.get("opcode") in ("++", "--"):
+        return C.kids(n)[0], n.get("opcode")
+    if k == "CXXOperatorCallExpr":
+        nm = C.callee_name(n) or ""
+        if nm in ("operator=", "operator+=", "operator-=", "operator*=", "operator/="):
+            return C.kids(n)[1], nm[8:]
+    return None, None
+
+
+def _refs(n, rid):
+    return any(c["kind"] == "DeclRefExpr" and c["referencedDecl"].get("id") == rid for c in C.walk(n))
+
+
+def r4_carried_state(ctx, cf):
+    """A variable that outlives one iteration of a frame loop and is written in it is either an induction pointer (whole-variable += / -= of
+    the per-frame stride at the top level of the body), an output pointer parameter, or assigned unconditionally at the top level of the body
+    before anything in the iteration reads it. A write under a condition ("only when the box changed") makes frame i depend on earlier frames."""
+    n_loops = 0
+    for rel, fname in FRAME_LOOP_KERNELS:
+        fn = cf.function(rel, fname)
+        ctx.analysed_files.add(rel)
+        ctx.analysed_functions.add(rel + ":" + fname)
+        out_params = {p.get("id") for p in C.fparams(fn) if "*" in C.qtype(p) and not C.qtype(p).strip().startswith("const")}
+        loops = [n for n in C.walk(C.body_of(fn)) if n["kind"] == "ForStmt" and len(n.get("inner", [])) >= 5 and n["inner"][2]
+                 and re.search(r"\bn_(frames|times)\b", C.text(n["inner"][2]))]
+        for L in loops:
+            n_loops += 1
+            body = L["inner"][4]
+            stmts = C.kids(body) if body["kind"] == "CompoundStmt" else [body]
+            inside = {n.get("id") for n in C.walk(L) if n["kind"] == "VarDecl"}
+            ptr_ids = {n.get("id") for n in C.walk(fn) if n["kind"] in ("VarDecl", "ParmVarDecl") and C.qtype(n).rstrip().endswith("*")}
+            writes = {}
+            for n in C.walk(body):
+                lhs, op = _lhs_of(n)
+                if lhs is None:
+                    continue
+                name, rid = C.root_var(lhs)
+                if rid is None or rid in inside or rid in out_params:
+                    continue
+                if rid in ptr_ids and C.strip(lhs)["kind"] != "DeclRefExpr":
+                    continue        # store through a pointer into a heap buffer: re-initialisation of such buffers is rule C08-R2
+                writes.setdefault((name, rid), []).append((n, op, C.strip(lhs)["kind"] == "DeclRefExpr"))
+            top_ids = {id(C.strip(s)): k for k, s in enumerate(stmts)}
+            top_ids.update({id(s): k for k, s in enumerate(stmts)})
+            bad = []
+            for (name, rid), ws in sorted(writes.items(), key=lambda kv: str(kv[0][0])):
+                induction = all(whole and op in ("+=", "-=") and id(n) in top_ids and not _refs(C.kids(n)[1], rid) for n, op, whole in ws)
+                if induction:
+                    continue
+                first = None
+                for k, s in enumerate(stmts):
+                    if _refs(s, rid):
+                        first = (k, s)
+                        break
+                ok = False
+                if first is not None:
+                    s = C.strip(first[1])
+                    lhs, op = _lhs_of(s)
+                    ok = lhs is not None and op == "=" and C.strip(lhs)["kind"] == "DeclRefExpr" and C.root_var(lhs)[1] == rid and not _refs(C.kids(s)[-1], rid)
+                if not ok:
+                    bad.append((name, ws[0][0]))
+            ctx.decide(not bad, "C08-R4", C.line(bad[0][1]) if bad else C.line(L), rel, fname,
+                       "no state carried between iterations of the frame loop (%d written outer variables: %s)" % (len(writes), ", ".join(sorted(str(k[0]) for k in writes)) or "-"), "",
+                       "`%s` lives across iterations of the frame loop and is written under a condition or read before it is assigned in the iteration: frame i then depends on earlier frames"
+                       % ", ".join(b[0] for b in bad))
+    if n_loops < 15:
+        raise AnalysisError("only %d frame loops found in the geometry kernels (15 confirmed by hand)" % n_loops)
+
+
+def r4_no_hidden_frequency_filter(ctx):
+    """wernet_nilsson reports hydrogen bonds frame by frame: the shared helper must not drop a triplet because it is rare in the trajectory."""
+    from .c14 import effective_freq
+    HB = "mdtraj/geometry/hbond.py"
+    m = ctx.py.mod(HB)
+    ctx.analysed_functions.add(HB + ":wernet_nilsson")
+    call, eff = effective_freq(m, "wernet_nilsson")
+    ctx.decide(eff == 0.0, "C08-R4", call or m.functions["wernet_nilsson"], HB, "wernet_nilsson", "per-frame result: pre-filter frequency threshold is 0", "",
+               "wernet_nilsson calls _compute_bounded_geometry with an effective freq of %r: a bond present in few frames of the trajectory is removed from the frames where it exists" % (eff,))
